@@ -137,7 +137,17 @@ fn check_args(c: &ArgCase) -> Verdict {
 }
 
 fn arg_names() -> impl Strategy<Value = Vec<String>> {
-    let ints = proptest::collection::vec(prop_oneof![3 => (0i128..=30).prop_map(|x| x.to_string()), 2 => (-30i128..=30).prop_map(|x| x.to_string()), 2 => (0u64..=100_000).prop_map(|x| x.to_string()), 1 => any::<i128>().prop_map(|x| x.to_string()), 1 => any::<u128>().prop_map(|x| x.to_string())], 0..=12);
+    let ints = proptest::collection::vec(prop_oneof![3 => (0i128..=30).prop_map(|x| x.to_string()), 2 => (-30i128..=30).prop_map(|x| x.to_string()), 2 => (0u64..=100_000).prop_map(|x| x.to_string()), 1 => any::<i128>().prop_map(|x| x.to_string()), 1 => any::<u128>().prop_map(|x| x.to_string()),
+        // Clusters closer together than the f64 spacing, around the type
+        // boundaries (u128::MAX, 2^127, 2^64, 2^53, i128::MIN).
+        2 => (0usize..=5, 0u32..=6).prop_map(|(b, d)| match b {
+            0 => (u128::MAX - d as u128).to_string(),
+            1 => ((1u128 << 127) + d as u128 - 3).to_string(),
+            2 => ((1u128 << 64) + d as u128 - 3).to_string(),
+            3 => ((1u128 << 53) + d as u128 - 3).to_string(),
+            4 => (i128::MIN + d as i128).to_string(),
+            _ => ((1u128 << 100) + d as u128).to_string(),
+        })], 0..=12);
     let floats = proptest::collection::vec(prop_oneof![(-2000i32..=2000).prop_map(|x| (x as f64 / 8.0).to_string()), Just("inf".to_string()), Just("-inf".to_string()), Just("1e3".to_string()), Just("0.5".to_string()), Just("10.25".to_string()), Just("9.75".to_string())], 0..=10);
     let strs = proptest::collection::vec(prop_oneof!["[a-d][a-d0-9]{0,4}", Just("x10".to_string()), Just("x9".to_string()), Just("x09".to_string()), Just("é1".to_string()), Just("k-2".to_string()), Just("k-10".to_string())], 0..=12);
     prop_oneof![4 => ints, 2 => floats, 4 => strs].prop_map(|v| {
@@ -337,9 +347,9 @@ pub fn check_tree(c: &TreeCase) -> Verdict {
 }
 
 fn groups(g: &mut Groups) {
-    g.prop("natural_cmp", 30_000, 2_000_000, proptest::collection::vec(name(), 2..=5), check_natural);
-    g.prop("arg_names", 60_000, 3_000_000, (arg_names(), 0u8..=2, any::<bool>()).prop_map(|(names, attr, reverse)| ArgCase { names, attr, reverse }), check_args);
-    g.prop("arg_names_mixed", 40_000, 2_000_000, (mixed_names(), 0u8..=2, any::<bool>()).prop_map(|(names, attr, reverse)| ArgCase { names, attr, reverse }), check_args_mixed);
+    g.prop("natural_cmp", 30_000, 2_000_000, || proptest::collection::vec(name(), 2..=5), check_natural);
+    g.prop("arg_names", 60_000, 3_000_000, || (arg_names(), 0u8..=2, any::<bool>()).prop_map(|(names, attr, reverse)| ArgCase { names, attr, reverse }), check_args);
+    g.prop("arg_names_mixed", 40_000, 2_000_000, || (mixed_names(), 0u8..=2, any::<bool>()).prop_map(|(names, attr, reverse)| ArgCase { names, attr, reverse }), check_args_mixed);
     g.enumerate(
         "arg_names_golden",
         |_| {
@@ -357,5 +367,5 @@ fn groups(g: &mut Groups) {
         false,
         check_args,
     );
-    g.prop("tree", 3_000, 150_000, (twingen::spec_with(0.1), 0u8..=2).prop_map(|(spec, attr)| TreeCase { spec, attr }), check_tree);
+    g.prop("tree", 3_000, 150_000, || (twingen::spec_with(0.1), 0u8..=2).prop_map(|(spec, attr)| TreeCase { spec, attr }), check_tree);
 }
